@@ -113,6 +113,10 @@ def check_expm(ctx, A, v, dt, m, kd_h, hermitian, style=None):
         exact = exact_expm_apply(A, dt, v0)
         # perturbations of the projected matrix (rounding, loss of orthogonality ~1e-11 near exhaustion) enter the exponential multiplied by |dt| ||A||
         tol_x = 1e-9 * max(1.0, abs(dt) * nA)
+        # 'exhausted' means: the independent residual after kd vectors is below 1e-8 ||A||, not that it is zero; what is left enters the exponential multiplied by |dt| ||A||
+        _res = kr.krylov_residuals(A, v0, min(m, n) + 1)
+        if 0 < kd_h <= len(_res):
+            tol_x = tol_x + 10 * float(_res[kd_h - 1]) * max(1.0, abs(dt) * nA)
         if not hermitian:
             # modified-Gram-Schmidt Arnoldi loses orthogonality like eps * cond(Krylov basis) (see C14); that defect of the projected matrix enters the same way
             _, Qref = kr.krylov_residuals(A, v0, min(m, n) + 1, basis=True)
@@ -203,9 +207,12 @@ def grid_case(ctx, idx, rng):
     kdg = kr.krylov_dim(resg)
     if any(1e-8 <= r <= 1e-5 for r in resg[:m]):
         kdg = 10**9
+    # general (non-normal, defective) matrices: |dt| ||G|| <= 3 -- the exponential of a non-normal matrix is ill conditioned for long time arguments, two
+    # finite-precision evaluations (library and scipy reference) then differ by far more than rounding (1.3e-7 observed at |dt| ||G|| = 76) without either being wrong
+    dt_g = dt if abs(dt) <= 1.0 else dt / abs(dt) * float(rng.uniform(0.05, 1.0))
     ctx.case(('general', gk, 'm>n' if m > n else ('m=n' if m == n else 'm<n'), 'exhausted' if m >= kdg else 'not-exhausted', 'complex' if cplx else 'real', dtk),
-             sample={'n': n, 'm': m, 'G': G, 'v': vg, 'dt': dt})
-    check_expm(ctx, G, vg, dt, m, kdg, hermitian=False)
+             sample={'n': n, 'm': m, 'G': G, 'v': vg, 'dt': dt_g})
+    check_expm(ctx, G, vg, dt_g, m, kdg, hermitian=False)
 
 
 def large_case(ctx, idx, rng):
